@@ -2,7 +2,7 @@
     mime.ParseMediaType, request, what the real handler answered), run the model and the Spec
     oracle, compare.  Executable only (extracted / vm_compute). *)
 From Coq Require Import List NArith ZArith Bool String.
-From ApiFu Require Import Base.Sexp JsonApi.JsonApiModel JsonApi.JsonApiSpec.
+From ApiFu Require Import Base.Sexp JsonApi.JsonApiModel JsonApi.JsonApiSpec JsonApi.JsonApiBytes.
 Import ListNotations.
 Open Scope string_scope.
 Open Scope list_scope.
@@ -44,7 +44,8 @@ Definition option_eqb {A} (eqb : A -> A -> bool) (x y : option A) : bool :=
 (** ** decoding: application outcomes *)
 Definition dec_err (s : sexp) : option err :=
   match tagged "err" s with
-  | Some [st] => do x <- as_bytes st; Some {| e_status := x |}
+  | Some [st] => do x <- as_bytes st; Some {| e_status := x; e_meta_ok := true |}
+  | Some [st; _] => do x <- as_bytes st; Some {| e_status := x; e_meta_ok := false |}    (* Meta does not marshal *)
   | _ => None
   end.
 
@@ -295,7 +296,11 @@ Fixpoint json_members_distinct (j : json) : bool :=
   | _ => true
   end.
 
-Definition dec_body (s : sexp) : option body :=
+Definition dec_body (in_range : bytes -> bool) (s : sexp) : option body :=
+  if sym_is "none" s then Some BNone
+  else match tagged "raw" s with Some [t] => do tb <- as_bytes t; Some (body_of_text in_range tb) | _ =>
+  match tagged "json" s with Some _ => None | None => None end end.
+Definition dec_body_tree (s : sexp) : option body :=
   if sym_is "none" s then Some BNone
   else match tagged "json" s with
        | Some [t] => do j <- dec_json t; Some (BJson j [])
@@ -311,7 +316,21 @@ Definition dec_request (s : sexp) : option request :=
       do p <- field1 "path" l; do pb <- as_bytes p;
       do acc <- field "accept" l; do accb <- map_opt as_bytes acc;
       do q <- field "query" l; do qb <- map_opt as_bytes q;
-      do bd <- field1 "body" l; do bdy <- dec_body bd;
+      do nums <- match field "nums" l with
+                 | Some ns => map_opt (fun e => match e with
+                                                | SL [t; ok] => do tb <- as_bytes t; do okb <- as_bool ok; Some (tb, okb)
+                                                | _ => None
+                                                end) ns
+                 | None => Some []
+                 end;
+      let in_range := fun tok => match find (fun p => bytes_eqb (fst p) tok) nums with Some p => snd p | None => false end in
+      do bd <- field1 "body" l;
+      do _ <- match tagged "raw" bd with
+              | Some [SStr t] => if forallb (fun tok => existsb (fun p => bytes_eqb (fst p) tok) nums) (number_tokens t)
+                                 then Some tt else None
+              | _ => Some tt
+              end;
+      do bdy <- match tagged "raw" bd with Some _ => dec_body in_range bd | None => dec_body_tree bd end;
       Some {| rq_method := mb; rq_path := pb; rq_accept := accb; rq_query := qb; rq_body := bdy |}
   | None => None
   end.
@@ -427,6 +446,14 @@ Inductive observed :=
 | OPanic
 | OResp (status : Z) (ctype : bytes) (body : option wbody) (calls : list call).
 
+(** after the request the harness compares every Links / Meta map its resolvers own with the
+    snapshot taken when it was made: [true] = all as they were *)
+Definition dec_maps_unchanged (s : sexp) : bool :=
+  match tagged "obs" s with
+  | Some l => match field1 "maps" l with Some x => negb (sym_is "written" x) | None => true end
+  | None => true
+  end.
+
 Definition dec_wbody (s : sexp) : option (option wbody) :=
   match untag s with
   | Some (t, args) =>
@@ -513,12 +540,13 @@ Definition choose_from (o : observed) (l : list err) : err :=
                   | OResp _ _ (Some (WDoc _ _ (s :: _) _)) _ => Some s
                   | _ => None
                   end in
+  let dflt := hd {| e_status := []; e_meta_ok := true |} l in
   match reported with
-  | Some s => match find (fun e => bytes_eqb (e_status e) s) l with
+  | Some s => match find (fun e => e_meta_ok e && bytes_eqb (e_status e) s) l with
               | Some e => e
-              | None => hd {| e_status := [] |} l
+              | None => match find (fun e => negb (e_meta_ok e)) l with Some e => e | None => dflt end
               end
-  | None => hd {| e_status := [] |} l
+  | None => dflt
   end.
 
 Definition agrees (m : outcome) (o : observed) : option string :=
@@ -566,6 +594,10 @@ Definition classes (pmt : bytes -> pm_result) (sch : schema) (rq : request) (m :
       (if existsb (fun t => existsb (fun d => match rd_resolver d with Custom _ _ _ => true | _ => false end) (rt_rels t)) sch
        then ["custom-resolver"] else []) ++
       (match rq_body rq with
+       | BJson j _ => if json_members_distinct j then [] else ["repeated-member"]
+       | BNone => []
+       end) ++
+      (match rq_body rq with
        | BJson _ (_ :: _ as tl) => if forallb is_json_space tl then ["body-trailing-space"] else ["body-trailing-bytes"]
        | _ => []
        end) ++
@@ -582,7 +614,7 @@ Definition classes (pmt : bytes -> pm_result) (sch : schema) (rq : request) (m :
            if existsb (fun nr => match rel_meta (snd nr) with [] => false | _ => true end) (w_rels i) then ["relationship-meta"] else []
        | _ => []
        end) ++
-      (match execute_request fixed pmt (fun l => hd {| e_status := [] |} l) sch rq with
+      (match execute_request fixed pmt (fun l => hd {| e_status := []; e_meta_ok := true |} l) sch rq with
        | Some r => if negb (data_marshals (rs_data r)) then ["marshal-fallback"] else []
        | None => []
        end)
@@ -594,8 +626,7 @@ Definition check_step (sch : schema) (ps : list sexp) (r o : sexp) : sexp + list
   match map_opt dec_pmt_entry ps, dec_request r, dec_observed o with
   | Some T, Some rq, Some ob =>
       if negb (forallb (pmt_has T) (accept_instances fixed (rq_accept rq))) then inl (v_bad "pmt-table-incomplete")
-      else if negb (match rq_body rq with BJson j _ => json_members_distinct j | BNone => true end)
-           then inl (v_bad "repeated-member")
+      else if negb (dec_maps_unchanged o) then inl (v_oracle_fail "resolver-map-written" [])
       else
         let pmt := pmt_of T in
         let choose := choose_from ob in
